@@ -506,6 +506,13 @@ var __c11 = (function () {
           if (String(nk) === k && nk >= 0 && nk === Math.floor(nk) && nk < 4294967295 && !sameDesc(d, Reflect.getOwnPropertyDescriptor(T, nk))) bad.push('descriptor of ' + R(W, k) + ' differs between the integer and the string spelling of the key');
         }
       }
+      if (Array.isArray(T)) {
+        var L = Reflect.getOwnPropertyDescriptor(T, 'length');
+        for (var j = 0; j < ks.length && j < 200; j++) {
+          var ik = ks[j], inum = typeof ik === 'string' ? Number(ik) : NaN;
+          if (String(inum) === ik && inum >= 0 && inum === Math.floor(inum) && inum < 4294967295 && L !== undefined && !(inum < L.value)) bad.push('array has own index ' + ik + ' >= length ' + R(W, L.value));
+        }
+      }
       if (!W.unordered && ks.length <= 200) {
         var ok = Object.keys(T);
         if (ok.join('\u0000') !== en.join('\u0000')) bad.push('Object.keys [' + ok.join(',') + '] disagrees with the enumerable string keys of the descriptors [' + en.join(',') + ']');
@@ -660,12 +667,15 @@ var __c11 = (function () {
   function lockGuard(W, op) {
     var name = op.op;
     if (name.slice(0, 3) !== 'am/' && name !== 'keys/json') return '';
-    var d = Reflect.getOwnPropertyDescriptor(W.T, 'length');
+    // the "length" the method will see: first holder on the raw target's chain (the catalogue's accessors return
+    // non-numeric strings, i.e. length 0, and need no guard)
+    var d;
+    for (var o = W.T, hops = 0; o !== null && hops < 20 && d === undefined; o = Reflect.getPrototypeOf(o), hops++) d = Reflect.getOwnPropertyDescriptor(o, 'length');
     if (d !== undefined && 'value' in d && typeof d.value === 'number' && d.value > 6000) return 'length>6000';
     // goja's generic Array.prototype methods test presence by Get (no HasProperty): through a proxy every hole looks
     // present and the has trap is never consulted (reported in the inbox; known finding).  Until that is repaired the
     // length-walking methods are only issued while 0..length-1 has no hole.
-    if (name.slice(0, 3) === 'am/' && d !== undefined && 'value' in d && (d.value === null || typeof d.value !== 'object' && typeof d.value !== 'function' && typeof d.value !== 'symbol')) {
+    if (name.slice(0, 3) === 'am/' && !op.force && d !== undefined && 'value' in d && (d.value === null || typeof d.value !== 'object' && typeof d.value !== 'function' && typeof d.value !== 'symbol')) {
       var len = Math.min(Number(d.value), 6001);   // ToLength of a primitive (NaN => no iteration)
       for (var i = 0; i < len; i++) if (!(i in W.T)) return 'hole';
     }
